@@ -35,6 +35,10 @@ def must_see(tier):
     m['merge:ins+del'] = 1
     m['merge:del+chg'] = 1
     m['malformed-both-raise'] = 10
+    m['ref-values'] = 500
+    m['ref-values:ok'] = 50
+    m['ref-values:ValueError'] = 50
+    m['ref-values:BTreesConflictError'] = 50
     return m
 
 
@@ -144,6 +148,16 @@ MALFORMED = [
 
 
 _SUBS = {}
+REFS = [PersistentReference(p64(21 + j), ('m', 'n')) for j in range(3)]
+
+
+def _ident_eq(x, y):
+    if isinstance(x, tuple) and isinstance(y, tuple):
+        return len(x) == len(y) and all(_ident_eq(p, q) for p, q in zip(x, y))
+    if isinstance(x, PersistentReference) or isinstance(
+            y, PersistentReference):
+        return x is y
+    return eq(x, y)
 
 
 def _subclass(cls):
@@ -176,7 +190,9 @@ def run_shard(spec, rec):
             if i % 400 == 0:
                 keys = sort_keys(rng.sample(uni, min(len(uni),
                                                      rng.choice([3, 5, 7]))))
-            old, com, new = gen_triple(fam, is_mapping, rng, keys, vals)
+            refmode = is_mapping and fam.vc == 'O' and i % 7 == 3
+            old, com, new = gen_triple(fam, is_mapping, rng, keys,
+                                       REFS if refmode else vals)
             links = (None, None, None)
             forms = ['state', 'state', 'state']
             r = rng.random()
@@ -226,6 +242,30 @@ def run_shard(spec, rec):
                 elif a[0] != b[0]:
                     # one side tolerated a shape the other rejected
                     rec.ev('malformed-tolerance-differs')
+                continue
+            if refmode:
+                # values that are persistent objects reach the resolver as
+                # reference stand-ins: equal to themselves, and comparing two
+                # DIFFERENT ones raises ValueError (ZODB's contract).  Both
+                # implementations must take the same way out - the same
+                # merged state, the same refusal, or the comparison's error -
+                # and never anything like SystemError
+                a, b = outs['c'], outs['py']
+                rec.ev('ref-values')
+                rec.ev('ref-values:' + (a[1] if a[0] == 'exc' else 'ok'))
+                rec.seen(kind, 'ref-values', a[0], a[1] if a[0] == 'exc'
+                         else None)
+                same = a[0] == b[0] and (
+                    a[1:] == b[1:] if a[0] == 'exc' else _ident_eq(a[1], b[1]))
+                weird = [o for o in (a, b) if o[0] == 'exc' and o[1] not in (
+                    'BTreesConflictError', 'ValueError')]
+                if not same or weird:
+                    rec.violation('c-and-python-decide-differently'
+                                  if not weird else
+                                  'resolver-raised-unexpected-error',
+                                  family=fam.name, kind=kind, impl='c-vs-py',
+                                  states=brief(states, 500), c=brief(a, 300),
+                                  py=brief(b, 300), ref_values=True)
                 continue
             multi = 'multi' in forms
             want = mergespec.decide(old, com, new, links, multi)
